@@ -77,10 +77,12 @@ def ex_first_setup(I):
 
 
 def s_parse_firstline(I, recv, args, kw):
+    """contract of _parse_firstline (verified below): True and errno untouched, or False with errno = BAD_FIRST_LINE"""
     log(I, 'FIRSTLINE').append(args[0])
-    ok = core.fresh('firstline_ok', z3.BoolSort())
-    I.st.havoc_field('errno')
-    return VBool(ok)
+    if I.st.choice(2, 'firstline_ok') == 0:
+        return VBool(z3.BoolVal(True))
+    I.st.write_field(recv.t, 'errno', VOpt(z3.BoolVal(False), VInt(0), Int))
+    return VBool(z3.BoolVal(False))
 
 
 def s_unicode_escape(I, recv, args, kw):
@@ -125,6 +127,10 @@ def ex_first_post(I, outcome, ctx):
         I.oblige('V1.firstline.line_is_everything_before_the_first_CRLF', fl[0].t == core.fn('UNESCAPE', S(), S())(z3.SubString(w, 0, idx)),
                  detail='the line handed to the grammar is stash + data up to the first CRLF of the concatenation')
         I.oblige('V2.firstline.progress', idx >= 0)
+        okv = I.field(self, 'errno')
+        I.oblige('V2.firstline.exactly_the_line_and_its_CRLF_are_consumed',
+                 z3.Or(z3.Not(okv.isnone), stash(I, self) == z3.SubString(w, idx + 2, z3.Length(w) - idx - 2)),
+                 detail='after a well-formed first line the stash is what follows its CRLF - the line is not parsed again, nothing is skipped')
 
 
 def ex_loop_body_once(I):
@@ -161,6 +167,46 @@ if bw != whole: bad.append('byte-at-a-time: %r' % (bw,))
 for b in bad[:4]: print(b)
 sys.exit(1 if bad else 0)
 '''
+
+
+# ============================================================================= _parse_firstline: error signalling
+def pf_setup(I):
+    self = parser(I)
+    return {'self': self, 'line': sym(I, 'line', Str)}
+
+
+def s_grammar(name):
+    def f(I, recv, args, kw):
+        """opaque grammar function (regexes, urlsplit): accepts the line or raises InvalidRequestLine; writes only parsed-field slots"""
+        log(I, 'GRAMMAR').append(name)
+        if I.st.choice(2, name) == 1:
+            lib.raise_(I, 'InvalidRequestLine', VStr('rejected by the grammar'))
+        return NONE
+    return f
+
+
+def pf_post(I, outcome, ctx):
+    if no_escape(I, outcome):
+        return
+    cover(I, 'return')
+    self, pre = ctx['args']['self'], ctx['pre']
+    v = outcome[1]
+    err = I.field(self, 'errno')
+    I.oblige('returns_a_bool', z3.BoolVal(isinstance(v, VBool)))
+    if isinstance(v, VBool):
+        was_none = z3.Select(pre['errno'][0], self.t)
+        I.oblige('rejected_line_sets_BAD_FIRST_LINE', z3.Implies(z3.Not(v.t), z3.And(z3.Not(err.isnone), err.val.t == 0)),
+                 detail='execute() and its callers tell a rejected first line from a parsed one by errno')
+        I.oblige('accepted_line_leaves_errno_alone', z3.Implies(v.t, err.isnone == was_none))
+
+
+SPECS.append(FucSpec(
+    'C13', FILE, 'HttpParser._parse_firstline', pf_setup, pf_post, fields=P_FIELDS,
+    calls={'self._parse_request_line': s_grammar('request_line'), 'self._parse_response_line': s_grammar('response_line'),
+           'str': lambda I, r, a, k: VStr(core.fresh('errstr', S()))},
+    env={'BAD_FIRST_LINE': VInt(0)}, exc_parents={'InvalidRequestLine': 'Exception'}, cover=['return'],
+    clause='_parse_firstline: a line the grammar rejects gives False with errno = BAD_FIRST_LINE; an accepted one gives True and leaves '
+           'errno alone (the grammar functions themselves are opaque)'))
 
 
 # ============================================================================= execute: header phase
@@ -486,3 +532,107 @@ SPECS.append(CustomCheck('C13', 'Seg.lean', lean_check('Seg.lean'), file='lemmas
 SPECS.append(CustomCheck('C13', 'segmentation(bounded)', run_bounded('http_segmentation.py', 'segmentation', ''), bounded=True,
                          file='bounded/http_segmentation.py',
                          clause='BOUNDED: requests/responses from a small grammar parsed under every 2-cut and byte-at-a-time delivery'))
+
+
+# ============================================================================= execute: all phases, any number of iterations (unbounded)
+# Conservation invariant of the phase loop: the bytes that are still unconsumed - what sits in the stash plus what is left of
+# `data` - are always a SUFFIX of w0 = stash0 ++ data0: nothing is lost, duplicated or reordered on the way through the phases, for
+# any number of iterations (a chunked body takes one iteration per chunk).  The unit parsers enter through their contracts
+# (verified above): each either leaves the stash alone or replaces it by a suffix of it.
+def exa_setup(I):
+    self = parser(I)
+    data = sym(I, 'data', Bytes)
+    I.assume(z3.Length(data.t) > 0)
+    I.st.ghost['W0'] = z3.Concat(stash(I, self), data.t)
+    return {'self': self, 'data': data, 'length': VInt(z3.Length(data.t))}
+
+
+def _unconsumed(I):
+    self = I.local('self')
+    d = I.local('data')
+    return z3.Concat(stash(I, self), lib.unopt(I, d).t)
+
+
+def exa_inv(I):
+    return z3.SuffixOf(_unconsumed(I), I.st.ghost['W0'])
+
+
+def _stash_becomes_suffix(I, recv, label):
+    """callee guarantee: the new stash is a suffix of the old one (the unit consumed a prefix)"""
+    old = stash(I, recv)
+    nb = List(Bytes).fresh('buf_' + label)
+    I.assume(nb.lo <= nb.hi)
+    I.st.write_field(recv.t, '_buf', nb)
+    I.assume(z3.SuffixOf(stash(I, recv), old), 'ensures of the unit parser: stash\' is what follows the consumed unit')
+
+
+def sa_parse_firstline(I, recv, args, kw):
+    if I.st.choice(2, 'firstline_ok') == 0:
+        return VBool(z3.BoolVal(True))
+    I.st.write_field(recv.t, 'errno', VOpt(z3.BoolVal(False), VInt(0), Int))
+    return VBool(z3.BoolVal(False))
+
+
+def sa_parse_headers(I, recv, args, kw):
+    """contract of _parse_headers (verified above): False and nothing changed | InvalidHeader | block consumed, stash = what follows"""
+    c = I.st.choice(3, 'headers')
+    if c == 0:
+        return VBool(False)
+    if c == 1:
+        lib.raise_(I, 'InvalidHeader', VStr('bad header'))
+    I.st.write_field(recv.t, PFX + 'on_headers_complete', VBool(True))
+    I.st.havoc_field('_chunked')
+    _stash_becomes_suffix(I, recv, 'after_headers')
+    return VInt(z3.Length(stash(I, recv)))
+
+
+def sa_parse_body(I, recv, args, kw):
+    """contract of _parse_body (identity and chunked, verified above): None (wait: stash kept, or identity body absorbed it) |
+    -1 (invalid chunk) | 0 (terminating chunk) | n > 0 (a data chunk consumed, stash = what follows)"""
+    c = I.st.choice(5, 'body')
+    if c == 0:
+        return NONE                                    # chunked wait: nothing changed
+    if c == 1:
+        _stash_becomes_suffix(I, recv, 'identity')    # identity body: everything buffered joined the body (stash emptied)
+        I.st.havoc_field(PFX + 'on_message_complete')
+        return NONE
+    if c == 2:
+        I.st.havoc_field('errno')
+        return VInt(-1)
+    if c == 3:
+        return VInt(0)
+    _stash_becomes_suffix(I, recv, 'chunk')
+    n = core.fresh('chunk_ret', z3.IntSort())
+    I.assume(n > 0, 'ensures chunk.data_chunk_never_signals_message_complete')
+    return VInt(n)
+
+
+def exa_post(I, outcome, ctx):
+    kind, v = outcome
+    if kind == 'raise':
+        cover(I, 'raise')
+        I.oblige('raises_only_for_an_invalid_escape', z3.BoolVal(v.cls == 'UnicodeDecodeError'), detail='escaping %s' % v.cls)
+        return
+    cover(I, 'return')
+    self = ctx['args']['self']
+    err = I.field(self, 'errno')
+    # whatever phase the call ends in, what stays in the stash is an unconsumed suffix of stash0 ++ data0 (error returns excepted)
+    ret = v.t if isinstance(v, VInt) else None
+    done = I.fz(self, PFX + 'on_message_complete')
+    I.oblige('conservation.stash_is_the_unconsumed_suffix_at_return', z3.Or(z3.Not(err.isnone), done, z3.SuffixOf(stash(I, self), I.st.ghost['W0'])),
+             detail='while the message is incomplete, what execute() leaves in the stash is exactly the part of stash + data that no unit '
+                    'parser has consumed: no byte is lost, repeated or moved by the phase loop')
+
+
+SPECS.append(FucSpec(
+    'C13', FILE, 'HttpParser.execute', exa_setup, exa_post, name='HttpParser.execute[all phases, unbounded]', fields=P_FIELDS,
+    calls={'self._parse_firstline': sa_parse_firstline, 'str': s_unicode_escape, 'self._parse_headers': sa_parse_headers,
+           'self._parse_body': sa_parse_body},
+    exc_parents={'InvalidHeader': 'Exception'}, env={'INVALID_HEADER': VInt(1)},
+    loops={0: LoopSpec(inv=[('conservation.unconsumed_bytes_are_a_suffix_of_stash_plus_data', exa_inv)],
+                       havoc_fields=['_buf', 'errno', 'errstr', PFX + 'on_firstline', PFX + 'on_headers_complete', PFX + 'on_message_begin',
+                                     PFX + 'on_message_complete', '_chunked'],
+                       kinds={'data': Bytes, 'nb_parsed': Int})},
+    cover=['return'],
+    clause='execute, every phase and any number of iterations: the unconsumed bytes (stash + rest of data) stay a suffix of '
+           'stash0 + data0 (loop invariant), so the phase loop loses, repeats and reorders nothing; the unit parsers enter by contract'))
